@@ -1,6 +1,6 @@
 (* C08 — Sub-message builders and reply dispatch agree on id, trigger and payload. Statements only. *)
 From Coq Require Import String List Bool NArith ZArith.
-Require Import SV.Base.Json SV.Model.Kinds SV.Model.Casing SV.Model.Syntax SV.Model.Expand SV.Model.Reply SV.Facts.ReplyFacts.
+Require Import SV.Base.Json SV.Model.Kinds SV.Model.Casing SV.Model.Syntax SV.Model.Expand SV.Model.Reply SV.Facts.ReplyFacts SV.Facts.ReplyTableFacts.
 Import ListNotations.
 Open Scope string_scope.
 
@@ -9,6 +9,13 @@ Open Scope string_scope.
 Theorem c08_distinct_ids : forall t h1 h2 i1 i2,
   reply_id_of h1 <> reply_id_of h2 -> id_of t h1 = Some i1 -> id_of t h2 = Some i2 -> i1 <> i2.
 Proof. exact distinct_handlers_distinct_ids. Qed.
+
+(* for every table the macro accepts, any two handler names that differ as written (also those whose
+   constants would coincide, `handler1` / `handler_1`: such tables are rejected) have ids, and different ones *)
+Theorem c08_distinct_names_distinct_ids : forall ms, snd (build_table ms) = [] ->
+  forall m1 h1 m2 h2, In (m1, h1) (all_pairs ms) -> In (m2, h2) (all_pairs ms) -> h1 <> h2 ->
+  exists i1 i2, id_of (fst (build_table ms)) h1 = Some i1 /\ id_of (fst (build_table ms)) h2 = Some i2 /\ i1 <> i2.
+Proof. exact accepted_distinct_names_distinct_ids. Qed.
 
 Theorem c08_id_finds_its_entry : forall t hid i, id_of t hid = Some i ->
   exists rd, lookup_id t i = Some rd /\ rd_reply_id rd = reply_id_of hid.
@@ -68,6 +75,7 @@ Example c08_example :
 Proof. split; reflexivity. Qed.
 
 Print Assumptions c08_distinct_ids.
+Print Assumptions c08_distinct_names_distinct_ids.
 Print Assumptions c08_id_finds_its_entry.
 Print Assumptions c08_trigger_covers_exactly_the_declared_outcomes.
 Print Assumptions c08_builder_stamps.
